@@ -23,6 +23,7 @@ import Oas3Model.Driver.Valid
 import Oas3Model.Driver.ValidSites
 import Oas3Model.Driver.Lex
 import Oas3Model.Driver.NameIndex
+import Oas3Model.Driver.Router
 open Lean Oas3.Driver
 
 def allOps : List (String × Handler) := List.flatten [
@@ -50,6 +51,7 @@ def allOps : List (String × Handler) := List.flatten [
   Oas3.Driver.ValidSites.ops,
   Oas3.Driver.Lex.ops,
   Oas3.Driver.NameIndex.ops,
+  Oas3.Driver.Router.ops,
   []]
 
 def handleLine (line : String) : String :=
